@@ -190,6 +190,27 @@ def run(oc, tier, seed):
     finally:
         shutil.rmtree(d, ignore_errors=True)
 
+    # ---- (2c) more distinct dates than a year has days, then the early dates again: their counters must still be there
+    d = tempfile.mkdtemp(prefix="c07d_")
+    try:
+        from pathlib import Path
+        os.makedirs(os.path.join(d, ".zorg"))
+        seen = {}
+        start = dt.date(2023, 1, 1)
+        days = [start + dt.timedelta(days=k) for k in range(400)]
+        order = days[:3] * 2 + days + days[:5] + [days[399], days[0], days[200]]
+        for i, day in enumerate(order):
+            z = ZIDManager(Path(d)).get_next(day)
+            if z in seen:
+                oc.spec_fail.append(({"kind": "many dates", "allocation": i, "date": day.isoformat(), "first_returned_at": seen[z]}, z,
+                                     "a ZID is never handed out twice, however many dates are in use", None))
+                break
+            seen[z] = i
+        oc.evaluations += 1
+        oc.count("many_dates_allocations", len(seen))
+    finally:
+        shutil.rmtree(d, ignore_errors=True)
+
     # ---- (3) lexers, (4) is_zid, (5) recompilation ---------------------
     from zorg.shared.dates import is_zid
     n_lex = 400 if tier == "quick" else len(chain)
